@@ -100,18 +100,18 @@ func runC07(c *Ctx) {
 				continue
 			}
 			// backward: all paths from entry to this return pass (start|refresh)(_, channelLifetime) and AddPermission(NewPermission(_,_,permissionLifetime))
-			okChan := allPathsTo(acb, ret.Block(), w.deepHit(func(in ssa.Instruction) bool {
+			okChan := allPathsTo(acb, ret.Block(), w.deepHitCtx(func(in ssa.Instruction, rs func(ssa.Value) ssa.Value) bool {
 				op := w.timerOpOf(in)
-				return op != nil && op.typ == "ChannelBind" && w.sameKey(op.dur, chanLife)
+				return op != nil && op.typ == "ChannelBind" && w.sameKey(rs(op.dur), chanLife)
 			}))
-			okPerm := allPathsTo(acb, ret.Block(), func(in ssa.Instruction) bool {
+			okPerm := allPathsTo(acb, ret.Block(), w.deepHitCtx(func(in ssa.Instruction, rs func(ssa.Value) ssa.Value) bool {
 				call, ok := in.(*ssa.Call)
 				if !ok || call.Call.StaticCallee() != addPerm {
 					return false
 				}
 				np, _ := callOf(call.Call.Args[1])
-				return np != nil && np.Call.StaticCallee() == newPerm && w.sameKey(np.Call.Args[2], permLife) && w.sameKey(call.Call.Args[0], acb.Params[0])
-			})
+				return np != nil && np.Call.StaticCallee() == newPerm && w.sameKey(rs(np.Call.Args[2]), permLife) && w.sameKey(rs(call.Call.Args[0]), acb.Params[0])
+			}))
 			if okChan {
 				c.OK("C07.2", fname(acb), "channel timer", w.instrPos(ret), "every path to this success return starts or refreshes the binding with channelLifetime")
 			} else {
